@@ -184,10 +184,13 @@ def stun_validate(chk, cases, label, with_asan=True):
 def stun_run(chk):
     thorough = chk.tier == "thorough"
     chk.level = "exploration"
-    cfg = "MC_Stun_d3.cfg" if thorough else "MC_Stun.cfg"
+    cfg = "MC_Stun_full2.cfg" if thorough else "MC_Stun.cfg"
     r, hists = dump_states("Stun", cfg, workers=8, timeout=1500)
     chk.add_model("Stun builder x code-shaped parser model vs RFC 5389 reference (%s)" % cfg, r,
                   "invariants C33_DesignMeetsContract, DesignReportsWhenReportable; every state is one datagram")
+    if thorough:
+        r3 = vlib.mc("Stun", "MC_Stun_d3.cfg", workers=8, timeout=1800)
+        chk.add_model("Stun, attribute depth 3, all header choices (model only, datagrams not exported)", r3)
     for c, inv in (("dev_headerless", "C33_DesignMeetsContract"), ("reach_reported", "Reach_Reported"), ("reach_overrun", "Reach_OverrunInsideDatagram")):
         vlib.mc("Stun", "MC_Stun_%s.cfg" % c, expect_violation=inv, workers=4, timeout=600)
     cases = []
